@@ -917,6 +917,33 @@ pub fn canon_dom(dom: &WeakDom) -> String {
     out
 }
 
+/// Canonical text in which UniqueId values are replaced by the ordinal of
+/// their first appearance: decoders may regenerate colliding ids through
+/// `UniqueId::now()`, whose process-wide state is not part of what C13 states.
+pub fn canon_without_uid_values(dom: &WeakDom) -> String {
+    let text = canon_dom(dom);
+    let mut out = String::with_capacity(text.len());
+    let mut seen: Vec<String> = Vec::new();
+    let mut rest = text.as_str();
+    while let Some(pos) = rest.find("UniqueId(UniqueId {") {
+        let (head, tail) = rest.split_at(pos);
+        out.push_str(head);
+        let end = tail.find("})").map(|e| e + 2).unwrap_or(tail.len());
+        let token = &tail[..end];
+        let idx = match seen.iter().position(|s| s == token) {
+            Some(i) => i,
+            None => {
+                seen.push(token.to_string());
+                seen.len() - 1
+            }
+        };
+        out.push_str(&format!("UniqueId#{}", idx));
+        rest = &tail[end..];
+    }
+    out.push_str(rest);
+    out
+}
+
 pub fn canon_digest(dom: &WeakDom) -> u64 {
     crate::prng::digest_bytes(canon_dom(dom).as_bytes())
 }
